@@ -16,6 +16,7 @@ import (
 	"github.com/csgura/fp"
 	"github.com/csgura/fp/hlist"
 	"github.com/csgura/fp/iterator"
+	"github.com/csgura/fp/lazy"
 	"github.com/csgura/fp/list"
 	"github.com/csgura/fp/monoid"
 	"github.com/csgura/fp/semigroup"
@@ -441,8 +442,45 @@ func foldScenario(r *mc.Registry, maxLen int, byName map[string]*node) int {
 		func(a, b fp.Dual[fp.Seq[int]]) bool { return seqEq(a.GetDual, b.GetDual) },
 		func(d fp.Dual[fp.Seq[int]]) string { return "Dual{" + showSlice(d.GetDual) + "}" }, byName["monoid.Dual(monoid.MergeSeq[int])"]}
 
+	// nilable monoid values: nil pointers (monoid.Ptr treats nil as neutral) and nil maps among the
+	// elements, in every position
+	strPtr := func(v string) *string { return &v }
+	mPtr := foldMonoid[*string]{"monoid.Ptr(monoid.String)", func() fp.Monoid[*string] {
+		return monoid.Ptr(lazy.Call(func() fp.Monoid[string] { return monoid.String }))
+	},
+		func() []*string { return []*string{nil, strPtr(""), strPtr("a"), strPtr("b")} },
+		func(p *string) *string {
+			if p == nil {
+				return nil
+			}
+			return strPtr(*p)
+		},
+		func(a, b *string) bool { return (a == nil) == (b == nil) && (a == nil || *a == *b) },
+		func(p *string) string {
+			if p == nil {
+				return "nil"
+			}
+			return fmt.Sprintf("&%q", *p)
+		}, byName["monoid.Ptr(monoid.String)"]}
+	mGoMap := foldMonoid[kv]{"monoid.MergeGoMap[string,int]", monoid.MergeGoMap[string, int],
+		func() []kv { return []kv{nil, {"a": 1}, {"a": 2}, {"b": 1}} },
+		func(m kv) kv {
+			if m == nil {
+				return nil
+			}
+			return unionRight(m, nil)
+		},
+		kvEq,
+		func(m kv) string {
+			if m == nil {
+				return "nilmap"
+			}
+			return showKV(m)
+		}, byName["monoid.MergeGoMap[string,int]"]}
+
 	var cases []foldCase
 	for _, cs := range [][]foldCase{
+		reduceCases(mPtr), foldMapCases(mPtr), reduceCases(mGoMap), foldMapCases(mGoMap),
 		reduceCases(mString), reduceCases(mSum), reduceCases(mProd), reduceCases(mOpt),
 		reduceCases(mSeq), reduceCases(mSlice), reduceCases(mDualSlice), reduceCases(mDualSeq),
 		foldMapCases(mString), foldMapCases(mSum), foldMapCases(mOpt),
@@ -493,7 +531,7 @@ func main() {
 		for _, n := range grammarNodes {
 			byName[n.name] = n
 		}
-		for _, want := range []string{"monoid.String", "monoid.Sum[int]", "monoid.Product[int]", "monoid.Option(monoid.String)", "monoid.MergeSeq[int]", "monoid.MergeSlice[int]", "monoid.Dual(monoid.MergeSlice[int])", "monoid.Dual(monoid.MergeSeq[int])"} {
+		for _, want := range []string{"monoid.String", "monoid.Sum[int]", "monoid.Product[int]", "monoid.Option(monoid.String)", "monoid.MergeSeq[int]", "monoid.MergeSlice[int]", "monoid.Dual(monoid.MergeSlice[int])", "monoid.Dual(monoid.MergeSeq[int])", "monoid.Ptr(monoid.String)", "monoid.MergeGoMap[string,int]"} {
 			if byName[want] == nil {
 				panic("fold scenario: no catalogue entry named " + want)
 			}
